@@ -409,6 +409,12 @@ def run(tier, replay=None):
     for family in ("table", "pars", "grains", "sparse"):
         run_family(chk, judge, family, tier, widen, shadow)
     run_stale(chk, judge)
+    # widened instances beyond the TLC alphabet (ints that are not binary64 values, grain lists longer than ten)
+    import c18_extra
+    xd = os.path.join(common.scratch(), "c18_extra")
+    os.makedirs(xd, exist_ok=True)
+    for what, case in c18_extra.run_extra(chk, xd, common.seed()):
+        chk.violation(what, case)
     if tier == "thorough":
         res = common.run_tlc("Storage", os.path.join(common.SPECS, "Storage_tab_d5.cfg"), workers=WORKERS,
                              coverage=True, timeout=1500, heap="6g")
